@@ -21,6 +21,10 @@ import (
 	"github.com/named-data/ndnd/std/utils"
 )
 
+// MinMTU is the smallest MTU a face can be configured with: the worst-case
+// NDNLPv2 headers must leave room for payload.
+const MinMTU = 64
+
 const lpPacketOverhead = 1 + 3
 const congestionMarkOverhead = 3 + 1 + 8
 
